@@ -32,6 +32,22 @@ NMAX, DMAX = 11, 8
 TOL = 1e-9
 TOL_INV = 10 ** 9          # integer form of 1/TOL for the exact comparison
 
+# degrees above the exhaustive bound: formula 13.13 is evaluated in binary64 and its residual (relative to
+# sum_j |Gamma_ij||V_j,alpha|) grows with d only (measured, identical for N = 1, 2, 3): d = 9: 2.8e-12, d = 10: 7.2e-12,
+# d = 11: 3.9e-11, d = 12: 8.8e-11.  These pairs get a d-dependent tolerance that keeps three orders of magnitude of margin.
+HIGH_DEGREE_PAIRS = {
+    'quick': [(N, d) for N in (1, 2) for d in (9, 10, 11, 12)],
+    'thorough': [(N, d) for N in (1, 2) for d in (9, 10, 11, 12)] + [(3, 9), (3, 10)],
+}
+
+
+def _tol_inv(d):
+    return 10 ** 9 if d <= 8 else (10 ** 8 if d <= 10 else 10 ** 7)
+
+
+def _tol(d):
+    return 1.0 / _tol_inv(d)
+
 RULE = ('part 1, exhaustive: every (N, d), 1 <= N <= 11, 1 <= d <= 8 with C(N+d-1, d) <= bound (quick 40: 39 pairs, '
         'thorough 130: 52 pairs) is one bucket with exactly one case that is executed in every run; for each pair the '
         'multi-index list is compared with an independent enumeration and ALL C(N+d-1,d)^2 identities '
@@ -43,8 +59,10 @@ ASSUMPTIONS = [
     'Gamma entries are binary64 numbers; they are converted exactly (Fraction(float)) and the identity is evaluated in '
     'exact integer/rational arithmetic; accepted residual: |(Gamma V - I)[i,alpha]| <= 1e-9 * sum_j |Gamma[i,j]| |V[j,alpha]| '
     '(rounding of formula 13.13 in binary64; measured <= 1e-13 for d <= 8)',
-    'd is capped at 8: formula 13.13 is an alternating sum whose binary64 evaluation loses accuracy for larger d '
-    '(conditioning, not enumeration logic); N <= 11',
+    'the exhaustive part is capped at d = 8: formula 13.13 is an alternating sum whose binary64 evaluation loses accuracy '
+    'for larger d (conditioning, not enumeration logic); N <= 11.  In addition the degrees d = 9..12 are executed for '
+    'N = 1, 2 (thorough: also (3,9), (3,10)) in every run with the tolerance 1e-8 (d = 9, 10) resp. 1e-7 (d = 11, 12): the '
+    'measured residual there is 2.8e-12 ... 8.8e-11 and depends on d only',
     'rays are generated with the default seed matrix S = I (the only form the consumers init_tensor/extract_tensor use)',
     'consumer check: tolerance 1e-9 relative to sum_j |Gamma[i,j]| * (sum of absolute Taylor terms along ray j); '
     'reference = exact polynomial differentiation (oracles.ExactPoly, Fractions) resp. mpmath.diff at 40 digits',
@@ -151,7 +169,7 @@ def prop_pair(case, stats):
             delta = 1 if rows[i] == alphas[a] else 0
             res = abs(prod[i, a] - delta * L)          # |residual| * L
             s = scale[i, a]
-            if res * TOL_INV > s:
+            if res * _tol_inv(d) > s:
                 raise Violation('%s: sum_j Gamma[i,j]*ray_j^alpha = %.17g for i=%s alpha=%s, expected %d '
                                 '(residual %.3e, term magnitude %.3e)'
                                 % (what, float(Fraction(prod[i, a], L)), rows[i], alphas[a], delta,
@@ -207,6 +225,8 @@ def _weighted_pairs(tier):
     pool = []
     for p in CONSUMER_PAIRS[tier]:
         pool.extend([p] * (4 if p[0] >= 2 and p[1] >= 2 else 1))
+    # high degrees (small ray sets only): d = 9..12 for N = 1, d = 9, 10 for N = 2
+    pool.extend([(2, 9), (2, 10), (2, 9), (1, 9), (1, 10), (1, 11), (1, 12)])
     # non-trivial pairs first: Hypothesis favours the front of a sampled_from list
     pool.sort(key=lambda p: (not (p[0] >= 2 and p[1] >= 2), p))
     return pool
@@ -340,7 +360,7 @@ def prop_poly(case, stats):
         err = abs(Fraction(float(vec[i])) - ref)
         rel = float(err) / sc
         worst = max(worst, rel)
-        if rel > TOL:
+        if rel > _tol(d):
             raise Violation('%s at x0=%s, terms=%s: Gamma.y_d entry for multi-index %s is %.17g, exact partial/factorial is %s '
                             '(error %.3e, term magnitude %.3e)' % (what, x0.tolist(), terms, al, vec[i], ref, float(err), sc))
     stats.err(worst)
@@ -356,7 +376,7 @@ def prop_poly(case, stats):
                 ref = p.diff_multi(tuple(al)).eval(xf)
                 i = labels.index(tuple(al))
                 sc = max(2 * float(scale[i]), abs(float(ref)), 1e-300)
-                if not np.isfinite(full[a, b]) or abs(float(Fraction(float(full[a, b])) - ref)) > TOL * sc:
+                if not np.isfinite(full[a, b]) or abs(float(Fraction(float(full[a, b])) - ref)) > _tol(d) * sc:
                     raise Violation('%s at x0=%s, terms=%s: Hessian entry [%d,%d] from extract_tensor is %.17g, exact %s'
                                     % (what, x0.tolist(), terms, a, b, full[a, b], ref))
 
@@ -479,7 +499,7 @@ def prop_ridge(case, stats):
                 raise Violation('%s: entry for multi-index %s is %r, reference %s' % (what, al, vec[i], mpmath.nstr(ref, 17)))
             rel = float(abs(mpf(float(vec[i])) - ref)) / sc
             worst = max(worst, rel)
-            if rel > TOL:
+            if rel > _tol(d):
                 raise Violation('%s with a=%s at x0=%s: Gamma.y_d entry for multi-index %s is %.17g, reference '
                                 'a^alpha/alpha! g^(d)(a.x0) = %s (term magnitude %.3e)'
                                 % (what, a.tolist(), x0.tolist(), al, vec[i], mpmath.nstr(ref, 17), sc))
@@ -526,6 +546,10 @@ def buckets(tier):
         bl.append(Bucket('pair:N=%d,d=%d' % (N, d), (lambda N=N, d=d: st.just({'N': N, 'd': d})), prop_pair,
                          {'quick': 1, 'thorough': 1}, nontrivial=_pair_nontrivial, classes=_pair_classes,
                          weight=_pair_cost(N, d)))
+    for (N, d) in HIGH_DEGREE_PAIRS[tier]:
+        bl.append(Bucket('pair:N=%d,d=%d' % (N, d), (lambda N=N, d=d: st.just({'N': N, 'd': d})), prop_pair,
+                         {'quick': 1, 'thorough': 1}, nontrivial=_pair_nontrivial, classes=_pair_classes,
+                         weight=_pair_cost(N, d)))
     bl.append(Bucket('consumer:poly', (lambda: poly_cases(tier)), prop_poly, {'quick': 60, 'thorough': 250},
                      nontrivial=_poly_nontrivial, classes=_poly_classes, shards={'quick': 4, 'thorough': 8}, weight=1.0))
     bl.append(Bucket('consumer:ridge', (lambda: ridge_cases(tier)), prop_ridge, {'quick': 40, 'thorough': 150},
@@ -544,6 +568,7 @@ def extra_evidence(tier):
         'exhaustive_scope': 'all (N,d) with 1<=N<=%d, 1<=d<=%d, C(N+d-1,d)<=%d; for each, all pairs (i, alpha) of '
                             'multi-indices of degree d; every pair is executed in every run (one bucket each)'
                             % (NMAX, DMAX, BOUND[tier]),
-        'consumer_pairs': ['(%d,%d)' % p for p in CONSUMER_PAIRS[tier]],
-        'tolerance': TOL,
+        'consumer_pairs': ['(%d,%d)' % p for p in sorted(set(_weighted_pairs(tier)))],
+        'high_degree_pairs_beyond_the_exhaustive_bound': ['(%d,%d)' % p for p in HIGH_DEGREE_PAIRS[tier]],
+        'tolerance': {'d<=8': 1e-9, 'd=9,10': 1e-8, 'd=11,12': 1e-7},
     }
